@@ -60,8 +60,22 @@ def dedicated_impls_override_both(crates):
     return {"serialize_tagged", "deserialize_tagged"} <= opt and {"serialize_tagged", "deserialize_tagged"} <= vec
 
 
+def thorough_extra(ctx, chk):
+    """Thorough tier: the derive-generated decoders of the integration-test structs (zvt/tests/derive.rs,
+    type-checked with --tests) are analysed like the shipped ones."""
+    if ctx.tier != "thorough":
+        return []
+    try:
+        d = ctx.crate("derive", kind="test", tests=True)
+    except Exception as e:  # noqa
+        chk.note("test structs not analysed: %r" % (e,))
+        return []
+    chk.analysed["test_crate_bodies"] = len(d.bodies)
+    return [d]
+
+
 def run(ctx, chk, only=None, prop="C02"):
-    crates, sc = in_scope(ctx)
+    crates, sc = in_scope(ctx, thorough_extra(ctx, chk) if only is None else ())
     excluded = {}
     if dedicated_impls_override_both(crates):
         for k, why in NOT_INSTANTIATED.items():
